@@ -655,6 +655,8 @@ func checkMain(args []string, t *testing.T) int {
 				if json.Unmarshal(b, &rr) == nil {
 					cov["map_ranges_rewritten"] = rr["rewritten"]
 					cov["uncontrolled_map_ranges"] = rr["skipped"]
+					cov["network_seams_inserted"] = rr["network_seams"]
+					cov["command_files_compiled_as_package"] = rr["cmd_files"]
 				}
 			}
 		}
